@@ -85,8 +85,21 @@ func c01Specs(tier string) []*Spec {
 		specs = append(specs, &Spec{ID: "C01", Name: name, Cfg: cfg, Keys: keys, Vals: bs("x", "y"), MaxDepth: depth, MaxMaint: 1, Weight: 8,
 			Alphabet: a.Ops, Oracles: []Oracle{oracleReads(pr)}})
 	}
+	// every read entry point used between the operations of a history, explored WITHOUT state de-duplication:
+	// the state key is an abstraction (storage, caches, the fields the in-package dump knows); whatever else a read
+	// memoises inside an object would be merged away by it, so here "use everything" is an operation and every
+	// history is executed as it stands
+	addUse := func(name string, cfg Cfg, depth int) {
+		keys := bs("a", "b")
+		pr := probesFor(keys)
+		a := Alpha{Writes: true, Save: true, Rollback: true, LVFO: true, DelTo: true, UseAll: true, Hold: true, MaxVersions: 3}
+		specs = append(specs, &Spec{ID: "C01", Name: name, Cfg: cfg, Keys: keys, Vals: bs("x"), MaxDepth: depth, MaxMaint: 1, Weight: 6, NoDedup: true,
+			Alphabet: a.Ops, Oracles: []Oracle{oracleReads(pr)}})
+	}
 	vals := bs("x", "")
 	if tier == "quick" {
+		addUse("use-between/nodedup/default/d6", defaultCfg, 6)
+		addUse("use-between/nodedup/cache1000-nofast/d6", Cfg{Fast: false, Cache: 1000}, 6)
 		add("emptykey/default/d4", defaultCfg, [][]byte{{}, []byte("a"), {0x00}}, bs("x", ""), 4, 2)
 		add("emptykey/nofast-cache3/d4", Cfg{Fast: false, Cache: 3}, [][]byte{{}, []byte("a"), {0x00}}, bs("x", ""), 4, 2)
 		addRewrite("rewrite/2keys/d8", defaultCfg, 8)
@@ -113,6 +126,9 @@ func c01Specs(tier string) []*Spec {
 	addRewrite("rewrite/2keys/d10", defaultCfg, 10)
 	addRewrite("rewrite-nofast-cache1000/2keys/d9", Cfg{Fast: false, Cache: 1000}, 9)
 	addResave("resave/1key/d11", defaultCfg, 11)
+	addUse("use-between/nodedup/default/d8", defaultCfg, 8)
+	addUse("use-between/nodedup/cache1000-nofast/d7", Cfg{Fast: false, Cache: 1000}, 7)
+	addUse("use-between/nodedup/cache1000/d7", Cfg{Fast: true, Cache: 1000}, 7)
 	addHold("hold/default/d7", defaultCfg, 7)
 	addHold("hold/cache1000-nofast/d6", Cfg{Fast: false, Cache: 1000}, 6)
 	addHold("hold/cache3/d6", Cfg{Fast: true, Cache: 3}, 6)
